@@ -1555,6 +1555,19 @@ func goKind(x ast.Expr, env map[string]gkind) gkind {
 func (k gkind) isIntKind() bool   { return k.T == "" && (k.U == "int" || k.U == "rune") }
 func (k gkind) isFloatKind() bool { return k.T == "" && k.U == "float" || isFloatT(k.T) }
 
+// containsIota: go/types records one value per syntax node, the one of the last spec that repeats the
+// expression; the value-dependent features therefore treat an expression over iota as possibly zero.
+func containsIota(x ast.Expr) bool {
+	found := false
+	ast.Inspect(x, func(n ast.Node) bool {
+		if id, ok := n.(*ast.Ident); ok && id.Name == "iota" {
+			found = true
+		}
+		return true
+	})
+	return found
+}
+
 func stripParens(x ast.Expr) ast.Expr {
 	for {
 		p, ok := x.(*ast.ParenExpr)
@@ -1714,7 +1727,8 @@ func c03Analyze(ref *c03ref) c03facts {
 					if kn := K(n); kn.T == "" && rk.T != "" {
 						// an untyped subexpression of the chain is computed again under the typed result type:
 						// its operands must then fit that type, and for float32 it keeps float64 precision
-						if _, bin := n.(*ast.BinaryExpr); bin && rk.T == "float32" {
+						if _, bin := n.(*ast.BinaryExpr); bin && isFloatT(rk.T) {
+							// machine arithmetic with a rounding at every level instead of exact arithmetic
 							f.Feats["multipass-propagation"] = true
 						}
 						ast.Inspect(n, func(m ast.Node) bool {
@@ -1791,13 +1805,13 @@ func c03Analyze(ref *c03ref) c03facts {
 					f.Feats["conv-requantized"] = true
 				}
 			case *ast.UnaryExpr:
-				if x.Op == token.SUB && isFloatT(K(x).T) && constIsZero(info.Types[x].Value) {
+				if x.Op == token.SUB && isFloatT(K(x).T) && (constIsZero(info.Types[x].Value) || containsIota(x)) {
 					f.Feats["float-negzero"] = true
 				}
 			case *ast.BinaryExpr:
 				kx, ky := K(x.X), K(x.Y)
 				ty := info.Types[x.Y]
-				if (x.Op == token.MUL || x.Op == token.QUO) && isFloatT(K(x).T) && constIsZero(info.Types[x].Value) {
+				if (x.Op == token.MUL || x.Op == token.QUO) && isFloatT(K(x).T) && (constIsZero(info.Types[x].Value) || containsIota(x)) {
 					f.Feats["float-negzero"] = true
 				}
 				switch x.Op {
@@ -1812,7 +1826,7 @@ func c03Analyze(ref *c03ref) c03facts {
 							return true
 						})
 					}
-					if constIsZero(ty.Value) {
+					if constIsZero(ty.Value) || containsIota(x.Y) {
 						switch {
 						case isFloatT(ky.T):
 							f.Discard = "typed float division by zero (infinity)"
@@ -2296,7 +2310,22 @@ func runC03(args []string) error {
 	single := fs.Bool("single", false, "debugging: one declaration per program")
 	maxDepth := fs.Int("depth", 5, "maximal expression depth")
 	count := fs.Int("n", 0, "number of main-stream cases (0 = tier default)")
+	srcFile := fs.String("src", "", "debugging: analyse one program (Go source file) and print what yaegi and the reference say")
 	fs.Parse(args)
+	if *srcFile != "" {
+		b, err := os.ReadFile(*srcFile)
+		if err != nil {
+			return err
+		}
+		ref, err := c03Reference(string(b))
+		if err != nil {
+			return err
+		}
+		facts := c03Analyze(ref)
+		impl := c03RunYaegi(string(b))
+		fmt.Printf("region: %q\ndiscard: %q\nfeatures: %v\nyaegi: %s %s\nreference: %s %s\ncoq: %s\n", c03Region(facts), facts.Discard, facts.Feats, impl.String(), impl.Note, ref.Out.String(), ref.Out.Note, ref.Prog.coq())
+		return nil
+	}
 	if err := os.MkdirAll(*out, 0o755); err != nil {
 		return err
 	}
